@@ -162,7 +162,7 @@ def spec_from_tables(tc):
             "edges": edges, "sites": sites, "mutations": muts, "migrations": migs}
 
 
-def judge_load(ctx, li, data, region, detail, acc, case, fault_kind):
+def judge_load(ctx, li, data, region, detail, acc, case, fault_kind, keyregion=None):
     """Load every object of the (faulted) stream; classify."""
     import tskit
 
@@ -205,7 +205,7 @@ def judge_load(ctx, li, data, region, detail, acc, case, fault_kind):
                     # these bytes are not reserved by the format: a changed value must be refused even
                     # when the object that comes out happens to equal the original
                     outcome = "accepted-equal"
-                    acc.fail(f"{region}:accepted-equal-object:{detail}",
+                    acc.fail(f"{keyregion or region}:accepted-equal-object:{detail}",
                              f"byte change in {region} ({detail}) was accepted (object equal to the original)", case)
                 break
             outcome = "different"
@@ -227,7 +227,7 @@ def judge_load(ctx, li, data, region, detail, acc, case, fault_kind):
                 except Exception as e:  # noqa
                     acc.fail(f"data:roundtrip-error:{detail}", repr(e), case)
             else:
-                acc.fail(f"{region}:different-object:{detail}",
+                acc.fail(f"{keyregion or region}:different-object:{detail}",
                          f"byte change in {region} ({detail}) loaded as a different object", case)
             break
     acc.ev(1, nontrivial=outcome != "same")
@@ -336,7 +336,9 @@ def run_shard(spec):
                         "op": list(op), "store": si, "region": region, "detail": detail, "k": spec["k"], "n": spec["n"],
                         "full": bool(spec.get("full"))}
                 mutated = data[:off] + bytes([nb]) + data[off + 1:]
-                judge_load(ctx, li, mutated, region, detail, acc, case, kind)
+                # for the item type byte the old and new type codes are part of the failure key
+                kr = f"desc.type:{data[off]}->{nb}" if region == "desc.type" else None
+                judge_load(ctx, li, mutated, region, detail, acc, case, kind, keyregion=kr)
         acc.sample({"file": spec["file"], "loader": LOADERS[li], "fault": kind, "size": len(data)})
     elif kind == "descpairs":
         s = ctx.stores[0]
@@ -396,7 +398,9 @@ def replay(case):
     elif kind in ("struct", "data"):
         off = case["off"]
         nb = apply(data[off], tuple(case["op"]))
-        judge_load(ctx, li, data[:off] + bytes([nb]) + data[off + 1:], case["region"], case["detail"], acc, case, kind)
+        kr = f"desc.type:{data[off]}->{nb}" if case["region"] == "desc.type" else None
+        judge_load(ctx, li, data[:off] + bytes([nb]) + data[off + 1:], case["region"], case["detail"], acc, case, kind,
+                   keyregion=kr)
     elif kind == "descpairs":
         m = bytearray(data)
         for off, bit in case["bits"]:
